@@ -194,14 +194,14 @@ pub fn subchecks(tier: Tier) -> Vec<SubCheck> {
       generated(
         "accepted_texts_roundtrip",
         "texts from the parser generators (valid block size, block hashes of up to ~400 raw characters around the capacities before / after collapsing, comma tails, mutations): for every plain type that the reference grammar says accepts the text, text -> object -> text is the text up to its comma (raw types) or its run-collapsed form (normalising types), len_in_str agrees, and the result parses back to a full_eq object; non-trivial = accepted by at least one type; distinct by text",
-        tier.pick(300_000, 4_000_000),
+        tier.pick(1_200_000, 12_000_000),
         || prop_oneof![4 => gens::text_valid_bs(), 1 => gens::text_mix()].prop_map(|text| TextCase { text }),
         eval_text,
       ),
       generated(
         "format_roundtrip",
         "valid objects of the four plain types from run layouts (all 31 block sizes, lengths on the capacities); to_string = Display = String::from = reference formatter; len_in_str; MAX_LEN_IN_STR; parse back (== and full_eq); store_into_bytes with sentinel buffers (10% of cases: every length 0..=MAX+8); text -> type -> text with and without a comma tail; non-trivial = both block hashes non-empty; distinct by text",
-        tier.pick(300_000, 4_000_000),
+        tier.pick(1_200_000, 12_000_000),
         || strategy(0.1),
         eval,
       ),
